@@ -295,7 +295,7 @@ def param_deps(func, expr, at_stmt, cfg=None, _memo=None, _depth=0):
             rhs = getattr(d, "value", None) if not isinstance(d, (_ast.For, _ast.With)) else (d.iter if isinstance(d, _ast.For) else d.items[0].context_expr)
             sub = param_deps(func, rhs, d, cfg, _memo, _depth + 1) if rhs is not None else set()
             if isinstance(d, _ast.AugAssign):
-                sub |= param_deps(func, _ast.Name(id=name, ctx=_ast.Load()), d, cfg, _memo, _depth + 1) if False else set()
+                sub |= param_deps(func, _ast.Name(id=name, ctx=_ast.Load()), d, cfg, _memo, _depth + 1)
             _memo[key] = sub
             out |= sub
     return out
